@@ -180,6 +180,27 @@ def corrupted_copy(sc, trace_files):
     return None
 
 
+def held_variant(sc):
+    """Expected counterexample: HeldNoFinishSpec (one Lock with a deferred Unlock around the loop's inner for)
+    violates ApiNeverWaitsForExecution.  (verifylib's parser does not know this TLC's wording for a violated
+    temporal property, hence the small runner.)"""
+    d = V._spec_copy(sc, "Scheduler")
+    meta = tempfile.mkdtemp(prefix="meta-", dir=sc.dir)
+    env = dict(os.environ)
+    env.setdefault("JAVA_TOOL_OPTIONS", "-Xmx3g -XX:ParallelGCThreads=2")
+    with V.tlc_slots(1):
+        r = subprocess.run(["timeout", "900", "tlc", "-workers", "2", "-metadir", meta, "-config", "Scheduler_obs_holdlock.cfg", "SchedulerMC.tla"],
+                           cwd=d, env=env, capture_output=True, text=True)
+    shutil.rmtree(meta, ignore_errors=True)
+    txt = r.stdout + r.stderr
+    if r.returncode == 137 or "OutOfMemoryError" in txt:
+        raise V.Broken("TLC ran out of memory / was killed (Scheduler_obs_holdlock.cfg)")
+    if "Temporal property ApiNeverWaitsForExecution was violated" in txt or "Temporal properties were violated" in txt:
+        V.log("model Scheduler/Scheduler_obs_holdlock.cfg: expected counterexample for ApiNeverWaitsForExecution (the variant that keeps the lock)")
+        return "fails, as it must (expected counterexample)"
+    raise V.Broken("the lock-holding variant of the model does not violate ApiNeverWaitsForExecution:\n" + V._tail(txt, 40))
+
+
 def run(sc, tier, seed):
     R = V.Result("C17", tier, seed)
     V.build_harness()
@@ -189,6 +210,10 @@ def run(sc, tier, seed):
     live = "Scheduler_live.cfg" if tier == "quick" else "Scheduler_live_thorough.cfg"
     R.add_model(V.model_check(sc, "Scheduler", "SchedulerMC.tla", live, workers=4 if tier == "quick" else 8, timeout=2400))
     obs = {}
+    # Schedule/Release never wait for an execution: they return even if Execute never does (no fairness on WorkerFinish)
+    R.add_model(V.model_check(sc, "Scheduler", "SchedulerMC.tla", "Scheduler_live_nofinish.cfg", workers=4, timeout=900))
+    # ... and the variant that keeps the lock while it waits for a busy worker must NOT have that property
+    obs["ApiNeverWaitsForExecution in the variant that holds s.mu across the hand-off wait"] = held_variant(sc)
     readings = [("Scheduler_obs_rerun.cfg", "NeverRerunAcrossEpochs")]
     if tier == "thorough":
         readings.append(("Scheduler_obs_ckpt.cfg", "CheckpointNeverGoesBack"))
